@@ -15,7 +15,7 @@ ASSUMPTIONS = [
     "option grid: function kind {static,self,cls} x inline_types x emit_as_kwonlyargs x indent_level 0..2 x emit_default_doc "
     "(quick: covering subset; thorough: full grid on a reduced shape set)",
 ]
-QUICK = ["p0_kwargs", "p1_noprose_kwargs", "p1_optint_d", "p1_optbool_f", "p1_int", "p1_int_d", "p1_str_s", "p1_bool_b", "p1_optint_none", "p2_d_then_plain", "p2_plain_then_d", "p1_ret",
+QUICK = ["p1_ret_none", "p0_kwargs", "p1_noprose_kwargs", "p1_optint_d", "p1_optbool_f", "p1_int", "p1_int_d", "p1_str_s", "p1_bool_b", "p1_optint_none", "p2_d_then_plain", "p2_plain_then_d", "p1_ret",
          "p1_ret_d", "ret_only", "p1_kwargs", "p0", "p3_mixed", "p1_literal"]
 GRID_Q = [
     ("function", {"inline_types": True, "kwonly": False, "indent_level": 1, "emit_default_doc": True}),
